@@ -87,7 +87,7 @@ def run(case):
         b.destroy()
     return None
 
-case = (0.0, 0.1, 12)
+case = (2.5, 0.5, 8)
 bad = run(case)
 print("case (start, dt, steps):", case)
 print("FAIL: " + bad if bad else "PASS")
